@@ -10,6 +10,7 @@
 -/
 import LccModel.Model.Loader
 import LccModel.Model.DirScan
+import LccModel.Model.ParamSource
 import LccModel.Generated.C13Tables
 
 namespace LccModel.Generated.C13
@@ -89,5 +90,32 @@ theorem scan_filter_agrees : ∀ r ∈ scanFilterTable, quad (DirScan.acceptsCha
 
 /-- `strip_py_ext` on every accepted name of the set: the suite is named after the file without its last three characters. -/
 theorem scan_stem_agrees : ∀ r ∈ scanStemTable, DirScan.stemChars r.1 = r.2 := by decide +kernel
+
+/-! ## The header of the CSV-like form of `@lcc.parametrized` (`Model/ParamSource.lean`)
+
+  `headerParseTable`: for every header spelling of a fields × padding-before × padding-after set, a list of literal headers
+  (the documentation's `"i,j"` / `"i, j"`, a column-aligned `"host      , port"`, `" value "`, tabs, empty fields) and every
+  character below U+0100 plus the Unicode spaces and their look-alikes used as padding at both ends and on both sides of the
+  comma: the parameter names the real `_Parametrized.parameters_source` gives the test (the keys of the dict it yields).
+  If the code's parsing changes for any spelling — e.g. white space before a comma is no longer removed — `decide` fails here. -/
+
+theorem header_parse_agrees_1 :
+    ∀ r ∈ headerParseTable1, LccModel.ParamSource.parseHeader r.1 = r.2 := by decide +kernel
+
+theorem header_parse_agrees_2 :
+    ∀ r ∈ headerParseTable2, LccModel.ParamSource.parseHeader r.1 = r.2 := by decide +kernel
+
+theorem header_parse_agrees_3 :
+    ∀ r ∈ headerParseTable3, LccModel.ParamSource.parseHeader r.1 = r.2 := by decide +kernel
+
+/-- the whole table (the generated file holds it in three parts) -/
+theorem header_parse_agrees :
+    ∀ r ∈ headerParseTable1 ++ headerParseTable2 ++ headerParseTable3, LccModel.ParamSource.parseHeader r.1 = r.2 := by
+  intro r hr
+  rcases List.mem_append.mp hr with h | h
+  · rcases List.mem_append.mp h with h | h
+    · exact header_parse_agrees_1 r h
+    · exact header_parse_agrees_2 r h
+  · exact header_parse_agrees_3 r h
 
 end LccModel.Generated.C13
